@@ -37,6 +37,29 @@ Fixpoint ref_funs (e : expr) : list str :=
   | EComp r _ _ i c s res => ref_funs r ++ ref_funs i ++ ref_funs c ++ ref_funs s ++ ref_funs res
   end.
 
+(** Free identifiers: occurrences not bound by an enclosing comprehension (the accumulator is
+    visible in condition, step and result; the iteration variable in the step). *)
+Definition rm (x : str) (l : list str) : list str := filter (fun y => negb (str_eqb y x)) l.
+
+(** free identifiers: occurrences not bound by an enclosing comprehension *)
+Fixpoint fv (e : expr) : list str :=
+  match e with
+  | EUnspec | ELit _ => []
+  | EIdent x => [x]
+  | ECall _ t args =>
+      match t with Some t' => fv t' | None => [] end ++
+      (fix go (l : list expr) : list str := match l with [] => [] | a :: l' => fv a ++ go l' end) args
+  | ESelect o _ _ => fv o
+  | EList es => (fix go (l : list expr) : list str := match l with [] => [] | a :: l' => fv a ++ go l' end) es
+  | EMap es => (fix go (l : list (expr * expr)) : list str :=
+                  match l with [] => [] | (k, v) :: l' => fv k ++ fv v ++ go l' end) es
+  | EStruct _ _ => []
+  | EComp r iv av i c s res =>
+      fv r ++ fv i ++ rm av (fv c) ++ rm iv (rm av (fv s)) ++ rm av (fv res)
+  end.
+
+Definition no_free_at (e : expr) : bool := forallb (fun x => negb (starts_at x)) (fv e).
+
 (** Sorted, duplicate-free form (for the wire). *)
 Fixpoint insert_sorted (x : str) (l : list str) : list str :=
   match l with
